@@ -5,6 +5,7 @@ import Dcg.Proofs.TemplateBlockTop
 import Dcg.Proofs.TemplateCheckBlockB
 import Dcg.Proofs.TemplateCheckBlockC
 import Dcg.Proofs.TemplateFixture
+import Dcg.Gen.CodeSites
 /-
 C01 — generation terminates and every emitted module is valid Python.
 
@@ -209,5 +210,18 @@ example : good (blockOf "class E(Enum):\n    a = 1\nb = 2".toList) = false := by
 example : good (blockOf "E = Base".toList) = true ∧ goodClass (blockOf "E = Base".toList) = false := by decide
 
 end Templates
+
+/-! ### Keyword names of `Field(...)` written by Python code -/
+
+/-- **Every extra key that can become a keyword NAME of `Field(...)` goes through the identifier
+sanitiser.** The key expressions of `JsonSchemaParser.get_field_extras` (followed through helper
+methods of the class; regenerated from the source's AST on every run) are all calls of
+`self.get_field_extra_key(…)`, which for field models that write extras as keyword arguments
+(pydantic v1) is `ModelResolver.get_valid_field_name_and_alias(key)[0]` — a Python identifier (C07).
+A path that returns `key.lstrip("x-")` without the sanitiser breaks this theorem
+(`Field(None, display-name=…)` would not parse). -/
+theorem field_extra_keys_sanitised :
+    Dcg.Gen.CodeSites.fieldExtraKeySites.all (fun s => s.2.2) = true ∧
+    Dcg.Gen.CodeSites.fieldExtraKeySites ≠ [] := by decide
 
 end Dcg.Props.C01
